@@ -1169,7 +1169,28 @@ class ContainerEngine:
         while len(ops) < nops:
             k = g.choices(kinds, [w[x] for x in kinds])[0]
             if k == "data":
+                if g.random() < (0.15 if prop in ("C09", "C06") else 0.05):
+                    # replace-then-relocate inside one patch: a node that an older container
+                    # holds is deleted, created anew and moved away (the old one must stay gone)
+                    p0 = dgen.existing(sh)
+                    if p0 and p0 != "/":
+                        kind0 = sh.nodes[p0]
+                        chain = [{"op": "boundary"}, {"op": "del", "base": "/", "path": p0.lstrip("/")}]
+                        chain.append({"op": "set_ds", "base": "/", "path": p0.lstrip("/"), "val": vgen.next()} if g.random() < 0.6 else {"op": "create_group", "base": "/", "path": p0.lstrip("/")})
+                        chain.append({"op": g.choice(["move", "move", "copy"]), "base": "/", "src": p0, "dst": "/" + dgen.key() + f"_r{len(ops)}"})
+                        if g.random() < 0.5:
+                            chain.pop(0)
+                        for c in chain:
+                            if c["op"] != "boundary":
+                                sh.apply(c)
+                            if c["op"] == "del":
+                                ms.drop(p0)
+                            ops.append(c)
+                        continue
                 op = dgen.gen(sh)
+                if g.random() < 0.03:
+                    # the root group is a group too: copy everything into a new top-level group
+                    op = {"op": "copy", "base": "/", "src": "/", "dst": "/" + dgen.key() + f"_all{len(ops)}"}
                 if op["op"] in ("copy", "move") and ms.pairs() and g.random() < 0.4 and op.get("how") != "group":
                     # prefer a source that carries metadata at or below it
                     p0, _ = g.choice(ms.pairs())
@@ -2274,6 +2295,15 @@ class ActorGen:
             if deep and g.random() < 0.4:
                 p = g.choice(deep)  # a group with descendants two or more levels down
             flags = g.choice(FLAG_SETS + [[]]) if g.random() < 0.7 else ["local_only"]
+            if ms.pairs() and g.random() < 0.25:
+                # a read-only grant on a group above a node that carries metadata, then every
+                # mutation once: a refused operation must not have destroyed the metadata first
+                p0, _ = g.choice(ms.pairs())
+                p = T.Shadow.parent(p0)
+                if g.random() < 0.3:
+                    p = T.Shadow.parent(p)
+                flags = sorted(set(g.choice(FLAG_SETS + [[]])) | {"read_only"})
+                self.plan = [{"op": "attempt", "actor": actor, "h": -1, "kind": g.choice(["sweep_M", "sweep_M", "g_delitem", "g_move"]), "arg": g.randrange(50)}]
             return {"op": "grant", "actor": actor, "path": p, "flags": flags, "container": g.random() < 0.5}
         if roll < 0.5:
             self.n[actor] += 1
